@@ -16,6 +16,7 @@ import (
 	"io"
 	"math/bits"
 	"reflect"
+	"strings"
 	"time"
 
 	"cuelabs.dev/go/oci/ociregistry"
@@ -49,6 +50,15 @@ type sentReader struct {
 	ociregistry.BlobReader
 	id int
 }
+
+// closableSource is a reader that can also be closed and sought (a file, a request body).
+type closableSource struct {
+	*strings.Reader
+	closed int
+}
+
+func (c *closableSource) Close() error { c.closed++; return nil }
+
 type sentWriter struct {
 	ociregistry.BlobWriter
 	id int
@@ -328,9 +338,20 @@ func invoke(f *ociregistry.Funcs, m int, ctx context.Context, salt, variant int)
 		return result{args: []any{repo, tag}, repoArg: repo, vals: []any{d}, err: err}
 	case 7:
 		desc := ociregistry.Descriptor{MediaType: "m", Digest: dig, Size: pickI(int64(salt), 0, -1, 1)}
-		rd := bytes.NewReader([]byte("x"))
+		// the reader is the caller's value, whatever else it can do: the function receives that very value
+		var rd io.Reader
+		switch class() {
+		case 0:
+			rd = bytes.NewReader([]byte("x"))
+		case 1:
+			rd = nil
+		case 2:
+			rd = &closableSource{Reader: strings.NewReader("x")}
+		default:
+			rd = stubReaders[0] // a BlobReader (has Close and Descriptor)
+		}
 		d, err := f.PushBlob(ctx, repo, desc, rd)
-		return result{args: []any{repo, desc, io.Reader(rd)}, repoArg: repo, vals: []any{d}, err: err}
+		return result{args: []any{repo, desc, rd}, repoArg: repo, vals: []any{d}, err: err}
 	case 8:
 		cs := int(pickI(int64(salt), 0, -1, 1))
 		w, err := f.PushBlobChunked(ctx, repo, cs)
